@@ -465,6 +465,9 @@ func RunCase(t Target, gc GridCase, sni string, extra func(cfg *tls.Config), opt
 			ccfg.ClientSessionCache = tls.NewLRUClientSessionCache(2)
 			ccfg.PreferSkipResumptionOnNilExtension = true
 			flavor = "EmptySessionCache"
+		case 7:
+			ccfg.Rand = peer.ChunkedRand{N: 1 + int(fnv32(t.Name+gc.Val)%5)}
+			flavor = "Config.Rand with short reads"
 		}
 	}
 	// Unless the caller fixed how the connection is driven, vary it deterministically with
